@@ -45,11 +45,6 @@ def real(mode, spec, timeout=120):
         return {"runner_error": "unparsable output: " + p.stdout[-500:] + p.stderr[-500:]}
 
 
-def real_many(mode, specs, workers=12):
-    with cf.ThreadPoolExecutor(workers) as ex:
-        return list(ex.map(lambda s: real(mode, s), specs))
-
-
 def drain(n, rounds=12):
     return list(range(n)) * rounds
 
@@ -292,7 +287,6 @@ def run(chk):
         long_run = f_long.result()
         sres = [f.result() for f in f_s]
         st = [f.result() for f in f_st]
-    hs_groups = hgroups
     ref = None
     hist_bad = None
     for h in hs:
